@@ -205,8 +205,34 @@ COQ_IMPORTS = "From AN Require Import Model.Chan.\n"
 
 def explicit_stream(ctx, cases, describe, exhaustive=False):
     mon, monitor, finding_key = make_monitor(ctx)
-    return Stream("c16", "c16", cases, monitor=monitor, nontrivial=nontrivial, shrink=shrink_tokens(" "),
-                  finding_key=finding_key, to_coq=to_coq, coq_imports=COQ_IMPORTS, exhaustive=exhaustive, describe=describe)
+    st = Stream("c16", "c16", cases, monitor=monitor, nontrivial=nontrivial, shrink=shrink_tokens(" "),
+                finding_key=finding_key, to_coq=to_coq, coq_imports=COQ_IMPORTS, exhaustive=exhaustive, describe=describe)
+    st.mon = mon
+    st.n_enum = 0
+    return st
+
+
+def audit_monitor(ctx, st, impl, model, k=20000):
+    """The per-case monitor trusts the theorem when impl == model.  Audit that shortcut: run the EXTRACTED predicate on a
+    sample of implementation traces (all corpus cases + k random ones) and require that it accepts every trace that equals
+    the model's (a rejection means theorem, extraction or driver disagree)."""
+    cases = common_cases(ctx, st)
+    n = len(cases)
+    ncorp = n - len(st.cases)
+    idx = sorted(set(range(ncorp)) | set(ctx.rng.sample(range(n), min(k, n))))
+    verdicts = st.mon.batch([(cases[j], impl[j]) for j in idx])
+    bad = [(cases[j], impl[j]) for j, v in zip(idx, verdicts) if v != "ok" and impl[j] == model[j]]
+    ctx.cov["monitor_audit_" + st.name] = {"extracted_predicate_evaluated_on_impl_traces": len(idx), "rejected_model_traces": len(bad)}
+    if bad:
+        ctx.report("correspondence-broken",
+                   {"stream": st.name, "case": bad[0][0], "impl_trace": bad[0][1], "model_trace": bad[0][1],
+                    "what": "the extracted predicate rejects a trace of the model itself: theorem %s_holds and the extracted "
+                            "monitor disagree (extraction/driver fault)" % ctx.pid}, nfi=True)
+
+
+def common_cases(ctx, st):
+    from common import load_corpus
+    return load_corpus(ctx.pid, st.name) + list(st.cases)
 
 
 def streams(ctx):
@@ -229,6 +255,7 @@ def custom(ctx):
     overlap = overlap_nt = 0
     for st in streams(ctx):
         impl0, model0 = ctx.run_stream(st)
+        audit_monitor(ctx, st, impl0, model0)
         # enumerated sequences of length >= plen are visited again by the sweep: do not count them twice
         ncorp = len(impl0) - len(st.cases)
         for c, m in zip(st.cases[:st.n_enum], model0[ncorp:ncorp + st.n_enum]):
